@@ -1,10 +1,7 @@
 use tevec::prelude::*;
 fn main() {
-    let v: Vec<i64> = Vec1Create::range(Some(0), 5, Some(2)); println!("range(0,5,2) = {:?}", v);
-    let v: Vec<i64> = Vec1Create::range(Some(5), 0, Some(-2)); println!("range(5,0,-2) = {:?}", v);
-    let v: Vec<i64> = Vec1Create::range(Some(0), 6, Some(2)); println!("range(0,6,2) = {:?}", v);
-    let v: Vec<f64> = Vec1Create::range(Some(0.), 1., Some(0.25)); println!("range(0,1,.25) = {:?}", v);
-    let v: Vec<f64> = Vec1Create::range(Some(0.), 1., Some(0.3)); println!("range(0,1,.3) = {:?}", v);
-    let v: Vec<i64> = Vec1Create::range(Some(5), 0, Some(1)); println!("range(5,0,1) = {:?}", v);
-    let v: Vec<usize> = Vec1Create::range(Some(5), 0, Some(1)); println!("usize range(5,0,1) = {:?}", v);
+    let v = vec![3., f64::NAN, 1.];
+    let r: Vec<f64> = v.vpartition(4, true, false).collect_trusted_to_vec(); println!("vpartition(4,sort) = {:?}", r);
+    let r: Vec<f64> = v.vpartition(4, false, false).collect_trusted_to_vec(); println!("vpartition(4,nosort) = {:?}", r);
+    let r: Vec<i32> = v.varg_partition(4, true, false).collect_trusted_to_vec(); println!("varg_partition(4,sort) = {:?}", r);
 }
